@@ -88,6 +88,27 @@ def func_scen(prop, tier, rng):
         return [enc(a) for a in gens.disc_on(rng, T, inner)]
     n = (150 if q else 2500)
     hp = gens.half_points(T)
+    if prop == 'C09':
+        # deterministic part: every ordered pair of a catalogue of special functions (constant zero,
+        # constant, all-zero pieces, same breakpoints, breakpoints that differ by 2^-20 only), added
+        # and then scaled on either side / copied and added back
+        e = Fr(1, 2 ** 20)
+        for kind in ('pwc', 'pwl'):
+            shapes = [([0, T], [0]), ([0, T], [2]), ([0, 2, 4, T], [0, 0, 0]), ([0, 1, 3, T], [1, 2, -1]),
+                      ([0, 1, 3, T], [3, 0, 5]), ([0, 1 + e, 3 + e, T], [2, 1, 4]), ([0, 1 - e, 3, T], [1, 1, 2]),
+                      ([0, 2, 5, T], [-1, 4, 2])]
+            cat = []
+            for x, y in shapes:
+                x = [Fr(v) for v in x]; y = [Fr(v) for v in y]
+                cat.append([x, y] if kind == 'pwc' else [x, y, [v + (k % 2) for k, v in enumerate(y)] if any(y) else list(y)])
+            tails = ([('mul', 0, Fr(2))], [('mul', 1, Fr(2))], [('copy', 0), ('mul', 2, Fr(3)), ('add', 1, 0)],
+                     [('add', 1, 0), ('mul', 1, Fr(-1))])
+            for a in range(len(cat)):
+                for b in range(len(cat)):
+                    if a != b:
+                        tl = tails if not q else [tails[(a + b) % len(tails)], tails[(a + b + 1) % len(tails)]]
+                        for tail in tl:
+                            yield {'kind': kind, 'funcs': [enc(cat[a]), enc(cat[b])], 'ops': [['add', 0, 1]] + [list(o) for o in tail]}
     for _ in range(n):
         if prop == 'C09':
             kind = rng.choice(['pwc', 'pwl'])
